@@ -99,13 +99,19 @@ def task_verlet(arg):
                 V("C14/verlet/does-not-move", where)
             if ex > 1e-9 or ep > 1e-9:
                 V("C14/verlet/not-reversible", f"after integrate, negate, integrate: positions off by {ex:.3g}, momenta by {ep:.3g} (relative); {where}")
-        # (b) order of the energy error at fixed total time
-        for dt in arg["dts_order"]:
+        # (b) order of the energy error at fixed total time; the time step is either given to the
+        # constructor or assigned to one integrator object afterwards (re-tuning the step)
+        for dt, mode in itertools.product(arg["dts_order"], ("constructed", "dt-assigned-after-construction")):
             errs = []
+            shared = Verlet(dt=3.0 * dt, max_steps=1, apply_constraints=(dt != arg["dts_order"][0]))
             for d, n in ((dt, arg["n_order"]), (dt / 2, 2 * arg["n_order"])):
                 atoms = start_atoms(pot, masses, off, zs)
                 e0 = atoms.get_total_energy()
-                integ = Verlet(dt=d, max_steps=1, apply_constraints=(dt != arg["dts_order"][0]))
+                if mode == "constructed":
+                    integ = Verlet(dt=d, max_steps=1, apply_constraints=(dt != arg["dts_order"][0]))
+                else:
+                    integ = shared
+                    integ.dt = d * units.fs
                 ctx = Ctx(atoms)
                 worst = 0.0
                 for _ in range(n):
@@ -117,7 +123,7 @@ def task_verlet(arg):
                 counters["nontrivial"] += 1
                 ratio = errs[0] / errs[1]
                 if not 3.2 <= ratio <= 4.8:
-                    V("C14/verlet/energy-error-not-second-order", f"max |dE| over the trajectory: {errs[0]:.3g} at dt={dt}fs, {errs[1]:.3g} at dt/2 (ratio {ratio:.3f}); pot={pot} masses={masses}")
+                    V("C14/verlet/energy-error-not-second-order" + ("" if mode == "constructed" else "/" + mode), f"max |dE| over the trajectory: {errs[0]:.3g} at dt={dt}fs, {errs[1]:.3g} at dt/2 (ratio {ratio:.3f}); pot={pot} masses={masses}; time step {mode}")
     return {"counters": counters, "violations": viol, "samples": []}
 
 
